@@ -33,6 +33,26 @@ Proof.
   - right; auto.
 Qed.
 
+Lemma In_lookup_key {A} k (l : list (str * A)) a : NoDup (map fst l) -> In (k, a) l -> lookup_key k l = Some a.
+Proof.
+  induction l as [|[k' a'] l IH]; cbn; intros Hn Hin; [contradiction|].
+  inversion Hn as [|? ? Hnot Hn']; subst.
+  destruct (str_eqb_spec k k') as [->|Hne].
+  - destruct Hin as [E|Hin]; [congruence|]. exfalso. apply Hnot. apply (in_map fst) in Hin. exact Hin.
+  - destruct Hin as [E|Hin]; [congruence | auto].
+Qed.
+
+Lemma same_set_lookup {A} (o1 o2 : list (str * A)) :
+  NoDup (map fst o1) -> NoDup (map fst o2) -> (forall kv, In kv o1 <-> In kv o2) ->
+  forall k, lookup_key k o1 = lookup_key k o2.
+Proof.
+  intros N1 N2 H k.
+  destruct (lookup_key k o1) as [a|] eqn:E1.
+  - symmetry. apply In_lookup_key; [assumption|]. apply H. apply lookup_key_In. assumption.
+  - destruct (lookup_key k o2) as [b|] eqn:E2; [|reflexivity].
+    apply lookup_key_In in E2. apply H in E2. apply (In_lookup_key _ _ _ N1) in E2. congruence.
+Qed.
+
 (* ---------------------------------------------------------------------------------------- *)
 (* sorting key lists: two duplicate-free lists with the same elements sort to the same list   *)
 (* ---------------------------------------------------------------------------------------- *)
@@ -454,6 +474,38 @@ Section Generic.
         rewrite (subset_compile_nil o_s o_t Ns (fun kv H => proj2 (Hsame kv) H)). reflexivity.
     Qed.
 
+    Lemma compile_full_defined o_s o_t :
+      keyset_guarded sup typ = true -> keysets_ok sav kss = true ->
+      in_domainb dom o_s = true -> in_domainb dom o_t = true ->
+      keys_documentedb kss o_s = true -> keys_documentedb kss o_t = true ->
+      exists ds, compile_full sav sup typ o_s o_t = Some ds.
+    Proof.
+      intros Hg Hk Hs Ht Ds Dt.
+      pose proof (keys_documented_In _ Ds) as Is. pose proof (keys_documented_In _ Dt) as It.
+      destruct (keysets_ok_inj _ _ Hk Is It) as [(zs & Es) _].
+      destruct (keysets_ok_inj _ _ Hk It Is) as [(zt & Et) _].
+      unfold keyset_guarded in Hg.
+      destruct (sd_keyset sup) as [ns|] eqn:Ks; [|discriminate]. destruct (sd_keyset typ) as [nt|] eqn:Kt; [|discriminate].
+      unfold compile_full, keyset_diags, keyfp, keyset_text. rewrite Kt, Ks, Hg, Es, Et, (compile_defined _ _ Hs Ht).
+      eexists; reflexivity.
+    Qed.
+
+    (* what two translation units compiled together do: a (possibly empty) list of guard diagnostics, empty exactly
+       for the same option set *)
+    Theorem main_general o_s o_t :
+      keyset_guarded sup typ = true -> keysets_ok sav kss = true ->
+      in_domainb dom o_s = true -> in_domainb dom o_t = true ->
+      keys_documentedb kss o_s = true -> keys_documentedb kss o_t = true ->
+      nodupb (map fst o_s) = true -> nodupb (map fst o_t) = true ->
+      exists ds, compile_full sav sup typ o_s o_t = Some ds /\
+                 (ds = [] <-> (forall kv, In kv o_s <-> In kv o_t)).
+    Proof.
+      intros Hg Hk Hs Ht Ds Dt Ns Nt.
+      destruct (compile_full_defined o_s o_t Hg Hk Hs Ht Ds Dt) as [ds E]. exists ds. split; [exact E|].
+      rewrite <- (guard_full_general o_s o_t Hg Hk Hs Ht Ds Dt Ns Nt).
+      unfold compiles_together_full. rewrite E. destruct ds; split; congruence.
+    Qed.
+
     (* in a tree without the fingerprint the complete diagnostics are the per-option ones *)
     Lemma compile_full_without_keyset o_s o_t :
       sd_keyset typ = None -> compile_full sav sup typ o_s o_t = compile sav sup typ o_s o_t.
@@ -589,30 +641,11 @@ Lemma keyset_symbols_free :
   keyset_symbol_free cpp_support_side cpp_symbols = true /\ keyset_symbol_free cpp_type_side cpp_symbols = true.
 Proof. vm_compute. repeat split; reflexivity. Qed.
 
-(* either both templates of a language carry the fingerprint or neither does *)
-Lemma keyset_consistent :
-  (keyset_guarded c_support_side c_type_side || keyset_absent c_support_side c_type_side = true) /\
-  (keyset_guarded cpp_support_side cpp_type_side || keyset_absent cpp_support_side cpp_type_side = true).
-Proof. vm_compute. split; reflexivity. Qed.
-
-(* without the fingerprint the full statement is refuted (F-OPTGUARD-KEYSET) *)
-Lemma full_refuted_without_keyset :
-  sd_keyset c_type_side = None ->
-  exists o_s o_t : opts,
-    in_domainb c_domain o_s = true /\ in_domainb c_domain o_t = true /\
-    keys_documentedb c_keysets o_s = true /\ keys_documentedb c_keysets o_t = true /\
-    compiles_together_full sav c_support_side c_type_side o_s o_t = true /\ ~ (forall kv, In kv o_s <-> In kv o_t).
-Proof.
-  intros K. exists (set_key k_std v_c11 c_defaults), c_defaults.
-  destruct extra_support_key_accepted as (D1 & D2 & Hc & _).
-  destruct default_keys_documented as (K2 & K1 & _).
-  split; [exact D1|]. split; [exact D2|]. split; [exact K1|]. split; [exact K2|]. split.
-  - unfold compiles_together_full. rewrite (compile_full_without_keyset sav c_support_side c_type_side _ _ K).
-    exact Hc.
-  - intros H. assert (Hin : In (k_std, v_c11) c_defaults) by (apply H; unfold set_key; apply in_or_app; right; left; reflexivity).
-    revert Hin. clear. intros Hin. apply (in_map fst) in Hin. cbn [fst] in Hin.
-    apply str_in_spec in Hin. vm_compute in Hin. discriminate.
-Qed.
+(* both templates of both languages carry the fingerprint under the same symbol *)
+Lemma c_keyset_guarded : keyset_guarded c_support_side c_type_side = true.
+Proof. vm_compute. reflexivity. Qed.
+Lemma cpp_keyset_guarded : keyset_guarded cpp_support_side cpp_type_side = true.
+Proof. vm_compute. reflexivity. Qed.
 
 (* ---- what is interpolated into the string literals of the assertion messages ---- *)
 Lemma msg_safe_spec sd : msg_literal_safe sd = true -> forall e, In e (sd_msg_exprs sd) -> In e safe_msg_exprs.
@@ -628,3 +661,54 @@ Proof. vm_compute. reflexivity. Qed.
 Lemma value_not_literal_safe :
   str_in [118; 97; 108; 117; 101] safe_msg_exprs = false /\ str_in sav_expr safe_msg_exprs = false.
 Proof. vm_compute. split; reflexivity. Qed.
+
+(* ---- the guard statements are live C / C++ ---- *)
+Lemma all_sides_live : forallb side_live [c_support_side; c_type_side; cpp_support_side; cpp_type_side] = true.
+Proof. vm_compute. reflexivity. Qed.
+
+(* ---- every composite class is rendered by a template that reaches the guard of base.j2 ---- *)
+Definition class_reaches (entries : list (str * str * bool)) (c : str) : bool :=
+  existsb (fun e => str_eqb (fst (fst e)) c && snd e) entries.
+Lemma every_class_reaches_guard :
+  composite_classes <> [] /\
+  forallb (class_reaches c_entry_templates) composite_classes = true /\
+  forallb (class_reaches cpp_entry_templates) composite_classes = true.
+Proof. split; [discriminate|]. vm_compute. split; reflexivity. Qed.
+
+(* ---- every option of properties.yaml (and the optional ones) is classified, and rendered on both sides ---- *)
+Lemma options_classified :
+  classifiedb (map fst c_domain) = true /\ classifiedb (map fst cpp_domain) = true /\
+  classifiedb (map fst c_defaults) = true /\ classifiedb (map fst cpp_defaults) = true.
+Proof. vm_compute. repeat split; reflexivity. Qed.
+
+Definition rendered_keys (sd : side) (o : opts) : option (list str) :=
+  option_map (map (fun a => snd (fst a))) (rendered sav sd o).
+Lemma every_option_fingerprinted :
+  rendered_keys c_support_side c_defaults = Some (map fst c_defaults) /\
+  rendered_keys c_type_side c_defaults = Some (map fst c_defaults) /\
+  rendered_keys cpp_support_side cpp_defaults = Some (map fst cpp_defaults) /\
+  rendered_keys cpp_type_side cpp_defaults = Some (map fst cpp_defaults).
+Proof. vm_compute. repeat split; reflexivity. Qed.
+
+Lemma all_classified_relevant :
+  forallb (fun kc => relevant (fst kc)) option_classes = true.
+Proof. vm_compute. reflexivity. Qed.
+
+Lemma same_set_opt_equiv (o1 o2 : opts) :
+  nodupb (map fst o1) = true -> nodupb (map fst o2) = true ->
+  (forall kv, In kv o1 <-> In kv o2) -> opt_equiv o1 o2.
+Proof.
+  intros N1 N2 H k _. apply same_set_lookup; [apply nodupb_NoDup | apply nodupb_NoDup|]; assumption.
+Qed.
+
+(* opt_equiv on option sets whose keys are all relevant is equality as sets *)
+Lemma opt_equiv_same_set (o1 o2 : opts) :
+  nodupb (map fst o1) = true -> nodupb (map fst o2) = true ->
+  forallb (fun kv => relevant (fst kv)) o1 = true -> forallb (fun kv => relevant (fst kv)) o2 = true ->
+  opt_equiv o1 o2 -> (forall kv, In kv o1 <-> In kv o2).
+Proof.
+  intros N1 N2 R1 R2 H [k v]. apply nodupb_NoDup in N1. apply nodupb_NoDup in N2.
+  rewrite forallb_forall in R1, R2. split; intros Hin.
+  - apply lookup_key_In. rewrite <- (H k (R1 _ Hin)). apply In_lookup_key; assumption.
+  - apply lookup_key_In. rewrite (H k (R2 _ Hin)). apply In_lookup_key; assumption.
+Qed.
